@@ -11,23 +11,32 @@ import re
 from .common import Ctx, Driver, CORPUS
 
 MANIFEST = dict(
-    text=("Lean theorems over the tables generated from the live bs4: for each of the 32 bytes 0x80-0x9F, the three carrier "
-          "encodings and modes xml/html, un-escaping the emitted reference gives the byte's Windows-1252 character "
-          "(xml_/html_reference_denotes_cp1252; the five bytes cp1252 leaves undefined get a plain placeholder), ascii emits the "
-          "documented substitute, no mode / a non-carrier encoding is plain decoding, conversion is byte-wise for whole inputs "
-          "(smart_quotes_preserve_characters); detwingle: the Python index loop refines a structural scan (detwingleImpl_refines), "
-          "terminates (detwingle_total), returns every valid UTF-8 byte list unchanged (detwingle_valid_id, and detwingle_inert_id "
-          "for anything made of lead-byte-sized chunks), and maps UTF-8 text with embedded convertible cp1252 bytes to the valid "
-          "UTF-8 of the text with each byte replaced by its character (detwingle_embedded, _valid; "
-          "table_agrees_with_cp1252_where_reachable, lead_byte_entries_are_dead). Tie: exhaustive 32 bytes x 4 modes x carrier and "
-          "non-carrier encodings through UnicodeDammit against model and oracle, random whole inputs, every scalar value through "
-          "detwingle (thorough; stride in quick), random interleavings with every convertible byte, arbitrary bytes, and the Lean "
-          "UTF-8 decoder / un-escaper against CPython's."),
+    text=("Lean theorems over tables generated from the live bs4 (MS_CHARS, MS_CHARS_TO_ASCII, ENCODINGS_WITH_SMART_QUOTES, CHARSET_ALIASES, "
+          "WINDOWS_1252_TO_UTF8, MULTIBYTE_MARKERS_AND_SIZES) and from CPython (single-byte decoders, codec registry on a finite universe of "
+          "spellings, html5 names). Smart quotes: for the 32 bytes x 3 carriers x xml/html the emitted reference un-escapes to the byte's "
+          "cp1252 character (xml_/html_reference_denotes_cp1252), undefined bytes get a placeholder, ascii emits the pinned documented "
+          "substitutes (ascii_substitutes_are_the_documented_ones), no mode / non-carrier = plain decoding; lifted to every byte string "
+          "(smart_quotes_preserve_characters, unescaping_the_conversion_gives_the_characters, windows1252_conversion_unescapes_to_plain_decoding) "
+          "and to the observable constructor for every spelling find_codec resolves to a carrier, every BOM/declaration/extra encodings "
+          "(constructor_preserves_characters, constructor_ascii_substitutes, stripBom_removes_only_a_bom, call_outcome_independent_of_history). "
+          "detwingle, for ALL byte lists: the Python index loop refines a structural scan (detwingleImpl_refines), terminates, only replaces "
+          "embeddable bytes by their table value (detwingle_only_replaces_embedded_bytes), is idempotent, its result is valid UTF-8 iff the "
+          "input is UTF-8 text with embedded cp1252 bytes (detwingle_output_valid_iff), identity on valid UTF-8 (detwingle_valid_id, "
+          "detwingle_inert_id), embedded bytes become their characters (detwingle_embedded); whole-table obligations with a "
+          "standards-based notion of embeddable byte (embeddable_bytes_converted, convertible_iff_embeddable, windows1252_table_whole). "
+          "Tie: histories of calls in one process vs the same call in a pristine forked process (with the property oracle on both), a "
+          "spelling grid, exhaustive 32 x 4 x encodings, random documents with BOMs/declarations/tags, every scalar value through detwingle "
+          "(thorough; stride in quick), interleavings with every embeddable byte, arbitrary bytes with the all-input clauses checked "
+          "directly on the real code, Lean UTF-8 decoder / un-escapers against CPython's."),
     design="7/C19",
-    note=("Inputs to UnicodeDammit carry no BOM and no '<' (no in-document declaration), chardet absent: the candidate order is "
-          "known, utf-8, windows-1252. Bytes 81 8D 8F 90 9D denote no cp1252 character and are outside the claim (recorded). "
-          "detwingle never converts bytes C2-F4 (UTF-8 lead bytes: ambiguous, read as UTF-8); every other byte >= 0x80 that Windows-1252 defines is 'convertible', whatever the library's tables say."),
-    technique="Lean 4 proofs (kernel-decided table obligations + induction over character decomposition + loop refinement) with exhaustive/random correspondence and a direct oracle",
+    note=("The model covers the whole constructor for bytes input (BOM stripping, candidate order, find_codec, tried_encodings, both passes); "
+          "what find_declared_encoding returns is a parameter of the model (theorems hold for every value; the harness passes the real one; "
+          "the regex itself is C07's), chardet absent, user/exclude encodings empty. Codecs the model does not decode byte by byte (UTF-16/32, "
+          "multi-byte, UTF-8 with errors=replace) make the model answer 'beyond' and the case is counted, not compared. Bytes 81 8D 8F 90 9D "
+          "denote no cp1252 character and are outside the claim (recorded). Spellings other than the three documented names in any letter "
+          "case (ISO_8859-1, latin-1, cp1252, ...) are not treated as carriers by the code (name comparison, dammit.py:942): outside the "
+          "statement, modelled as is, recorded in evidence. detwingle never converts bytes C2-F4 (UTF-8 lead bytes: read as UTF-8)."),
+    technique="Lean 4 proofs (kernel-decided whole-table obligations + induction over byte lists + loop refinement) with history/exhaustive/random correspondence and a direct oracle",
 )
 
 MODES = [None, "xml", "html", "ascii"]
@@ -474,13 +483,14 @@ def near_valid_utf8(r):
 # ----------------------------------------------------------------------------------------------
 def run(ctx: Ctx):
     from bs4.dammit import UnicodeDammit as U
-    ctx.rule = ("smart quotes: a case is non-trivial when the input holds at least one byte 0x80-0x9F, a mode is set and the encoding is a "
-                "carrier (distinct (bytes, enc, mode)); detwingle: the input holds at least one multi-byte character (identity cases) or at "
+    ctx.rule = ("smart quotes: a case is non-trivial when the (BOM-stripped) input holds at least one byte 0x80-0x9F, a mode is set and the first "
+                "known encoding is a documented carrier in any letter case (distinct (bytes, known, mode)); histories: every call after the first; detwingle: the input holds at least one multi-byte character (identity cases) or at "
                 "least one convertible byte next to UTF-8 text (embedded cases); garbage/decoder streams count as correspondence only")
     ctx.assumptions = [
-        "UnicodeDammit inputs: non-empty, no byte-order mark, no '<' (no in-document declaration), chardet/charset_normalizer absent, "
-        "lower-case codec names CPython knows: the candidate order is [known, utf-8, windows-1252]",
-        "CPython's single-byte decoders (windows-1252, iso-8859-1, iso-8859-2, latin-1, cp1252, iso-8859-5) are taken as generated tables; "
+        "chardet/charset_normalizer absent; user_encodings/exclude_encodings empty; what find_declared_encoding returns is passed to the model "
+        "as a parameter (the theorems hold for every value of it)",
+        "CPython's single-byte decoders (cp1252, iso8859-1, iso8859-2, iso8859-5, ascii, mac-roman) and its codec registry on a finite universe "
+        "of spellings are taken as generated tables; cases decided by other codecs are counted as 'model-does-not-decide'; "
         "CPython's utf-8 codec is compared with the Lean decoder on every decoder/garbage case",
         "'un-escaping' = html.unescape (and, for xml mode, the reference must be a numeric &#xH; reference)",
     ]
